@@ -48,6 +48,18 @@ def run(tier, selftest):
     cor = dict(docs=docs, meta=meta, results=results, rejected=rejected)
     # C06 judges the relations and the diagnostic lines; outcome/tree disagreements are C04's business
     c04.report(PID, rep, cor, only={"R1", "R2", "R3", "R3eq", "Diagnostics", "ErrorClass", "Outcome"})
+    # R4 rests on the lines of the tokens: the lines the tokenizer reports are compared with an independent count
+    nlines = nskip = 0
+    for (t, sflag), r, c in zip(docs, results, meta):
+        why = pc.token_lines_agree(t, r)
+        if why == "skip":
+            nskip += 1
+            continue
+        nlines += 1
+        if why:
+            rep.violation(f"strictness:TokenLine:{c['k']}", f"{why} (case {c})", {"kind": "doc", "case": c, "text": t, "strict": sflag})
+    if nlines < 0.8 * len(docs):
+        vlib.tool_error(f"vacuity: token lines compared for {nlines} of {len(docs)} documents only")
     sites = set()
     for r in results:
         for d in r.get("diags", []):
@@ -71,6 +83,7 @@ def run(tier, selftest):
         "traces_validated_against_impl": njudged,
         "exhaustive": tier == "thorough",
         "evaluations": len(docs),
+        "documents_with_token_lines_compared": nlines,
         "distinct_nontrivial": sum(1 for i in range(0, len(results), 2) if results[i].get("ok") != results[i + 1].get("ok")),
         "rule": "every selected C04 case and all 220 multi-fault documents are loaded in both modes; each load is validated against Parser.tla (class + line of every diagnostic) and each pair against R1-R3; non-trivial = the two modes differ in success",
         "samples": [multi[0], {"text": pc.concretise(multi[7])}],
